@@ -1810,6 +1810,10 @@ pub fn run(pc: &PropCtx) {
     pc.require_class("sweep:hit:basename_literal:path_ends_with_dot", pc.tier.pick(50, 1_000));
     pc.require_class("sweep:hit:extension:path_ends_with_dot", pc.tier.pick(50, 1_000));
     pc.require_class("sweep:hit:required_ext:path_ends_with_dot", pc.tier.pick(50, 1_000));
+    if pc.tier == crate::runner::Tier::Thorough {
+        pc.run_fuzz("C12:pairs", 80_000, 4000, &|v| replay(pc, "pairs", v).unwrap_or(Verdict::Reject("unreadable")));
+        pc.run_fuzz("C12:sets_random", 80_000, 6000, &|v| replay(pc, "sets_random", v).unwrap_or(Verdict::Reject("unreadable")));
+    }
     pc.require_class("pairs:model_says_match", pc.tier.pick(10_000, 200_000));
     pc.require_class("pairs:model_says_no_match", pc.tier.pick(10_000, 200_000));
     pc.require_class("pairs:path_non_utf8", pc.tier.pick(1_000, 20_000));
